@@ -4,8 +4,8 @@
 // ASSUME: values follow SC interleavings; ghost vector clocks honour the memory orders in the IR; compare_exchange never fails spuriously
 // ASSUME: GALOIS_DIE/GALOIS_ASSERT keep their fatal exit but drop the formatted message
 // ASSUME: the conflict path is the default GALOIS_USE_LONGJMP_ABORT one: signalConflict() longjmps to the setjmp in the modelled worker (modelled as a local goto inside the inlined thread body)
-// OB: ob_own_T2 tier=thorough unwind=40 timeout=1500 solver=cadical bounds="T=2 contexts, 2 lockables, each context performs 2 acquire() calls with symbolic target and flag in {READ, WRITE, UNPROTECTED, PREVIOUS} (re-acquisition allowed), then commit; a conflict cancels; 30 steps" desc="never two owners; ALREADY_OWNER only for the true owner; commit/cancel frees everything; hand-over is happens-before; no deadlock"
-// OB: ob_own_T3 tier=thorough unwind=60 timeout=3600 solver=cadical bounds="T=3 contexts, 2 lockables, 2 acquires each, 45 steps" desc="same with three contexts"
+// OB: ob_own_T2 tier=attic unwind=40 timeout=1500 solver=cadical bounds="T=2 contexts, 2 lockables, each context performs 2 acquire() calls with symbolic target and flag in {READ, WRITE, UNPROTECTED, PREVIOUS} (re-acquisition allowed), then commit; a conflict cancels; 30 steps" desc="never two owners; ALREADY_OWNER only for the true owner; commit/cancel frees everything; hand-over is happens-before; no deadlock"
+// OB: ob_own_T3 tier=attic unwind=60 timeout=3600 solver=cadical bounds="T=3 contexts, 2 lockables, 2 acquires each, 45 steps" desc="same with three contexts"
 // OB: ob_seq3 checks=std tier=quick unwind=12 timeout=300 params=6,6,6 param_limit=72 bounds="two contexts, two lockables, 72 of the 216 sequences of 3 operations from {A.acquire, B.acquire, A.commit, B.commit, A.abort, B.abort} (VERIF_SEED; all 216 in the thorough tier); acquire target and flag symbolic; operations are atomic (interleaving at operation granularity)" desc="owner words, lock bits, neighbourhood lists equal an ownership model after every operation; a conflict leaves everything unchanged; commit/abort release exactly the caller's lockables"
 // OB: ob_seq3_all checks=std tier=thorough unwind=12 timeout=300 params=6,6,6 bounds="all 216 sequences of 3 operations" desc="same, complete"
 // OB: ob_seq4 checks=std tier=thorough unwind=12 timeout=300 params=6,6,6,6 param_limit=400 bounds="400 of the 1296 sequences of 4 operations" desc="same, deeper"
